@@ -1,6 +1,6 @@
 """C27 Global projection operators are consistent permutations.
 
-Spec: {"mdg": mdg_spec, "nm": 0|1|2, "nd": 1|2|3, "sds": [subdomain indices, ordered],
+Spec: {"mdg": mdg_spec, "nm": 0|1|2|3, "nd": 1|2|3, "sds": [subdomain indices, ordered],
        "sub": [indices taken from sds, ordered], "intfs": [interface indices, ordered]}
 Indices refer to mdg.subdomains() / mdg.interfaces() of the built md-grid.  `nm` selects a
 non-matching variant of the md-grid (2-d only): 1 = every 1-d mortar grid refined by 2,
@@ -18,14 +18,15 @@ ID = "C27"
 RULE = (
     "Hypothesis draws a fractured md-grid (pp.meshing.cart_grid, 2-d/3-d, 0-3 lattice fractures with X/T/L "
     "intersections), optionally made non-matching (all 1-d mortar grids refined, or all 1-d fracture grids replaced "
-    "by refinements), a vector dimension nd in 1..3, an ordered list L of distinct subdomains (any subset, any order, "
+    "by refinements, or the 1-d mortar grids remeshed with one node more so that they are nested in neither neighbour), a vector dimension nd in 1..3, an ordered list L of distinct subdomains (any subset, any order, "
     "possibly empty or only 0-d), an ordered sub-list S of L and an ordered list of interfaces. Oracle, built with "
     "explicit index arithmetic (global index of component c of entity e of the j-th listed grid = "
     "(offset_j + e)*nd + c, offsets cumulative in LIST order): SubdomainProjections(L, nd).{cell,face}_restriction(S) "
     "equals the 0/1 selection matrix, prolongation its transpose, R(S)P(S)=I, [P(g) for g in L] = identity; "
     "MortarProjections(mdg, L, I, nd).x() for the eight projections equals the block matrix of intf.x(nd) placed at "
     "the face (primary) / cell (secondary) offset of the neighbour in L and the mortar-cell offset of intf in I "
-    "(zero block when the neighbour is not in L), sign_of_mortar_sides = block diagonal; "
+    "(zero block when the neighbour is not in L), the eight projections requested from ONE object in a drawn order "
+    "followed by repeated requests (results are cached per object), sign_of_mortar_sides = block diagonal; "
     "BoundaryProjection(mdg, L, nd): subdomain_to_boundary picks the domain-boundary faces (tag) of each listed "
     "grid in list order, boundary_to_subdomain is its transpose, their product is the identity on boundary cells. "
     "0/1 matrices compared exactly, mortar weights with atol 1e-9. "
@@ -56,8 +57,8 @@ ASSUMPTIONS = [
     "sub-lists passed to restriction/prolongation are subsets of the constructor list (KeyError otherwise by design)",
 ]
 REQUIRED = {"nd1": 0.15, "nd2": 0.15, "nd3": 0.12, "order-permuted": 0.2, "order-md": 0.1, "list-partial": 0.12,
-            "list-full": 0.2, "list-has-0d": 0.07, "intf-permuted": 0.1, "neighbour-missing": 0.1, "nm1": 0.05,
-            "nm2": 0.04, "mdg-dim3": 0.1, "sub-permuted": 0.1, "history": 0.12, "history-inplace-mutation": 0.06,
+            "list-full": 0.2, "list-has-0d": 0.07, "intf-permuted": 0.1, "neighbour-missing": 0.1, "nm1": 0.03,
+            "nm2": 0.03, "nm3": 0.04, "mortar-request-order-permuted": 0.5, "mortar-nonconforming-primary": 0.02, "mdg-dim3": 0.1, "sub-permuted": 0.1, "history": 0.12, "history-inplace-mutation": 0.06,
             "history-repeat": 0.02, "history-fresh-list": 0.04}
 
 MORTAR_METHODS = [
@@ -93,14 +94,17 @@ def _spec(draw, tier):
                           min_fracs=0 if draw(st.integers(0, 7)) == 0 else 1, phys=False))
     nm = 0
     if mdg_s["dim"] == 2 and mdg_s["fracs"] and draw(st.integers(0, 2)) == 0:
-        nm = draw(st.sampled_from([1, 2]))
+        nm = draw(st.sampled_from([1, 2, 3, 3]))
     sd_sizes, intf_sizes = grid_sizes(mdg_s)
     ns, ni = len(sd_sizes), len(intf_sizes)
     sds = draw(_ordered_subset(ns))
     k = len(sds)
     pos = draw(_ordered_subset(k))
     spec = {"mdg": mdg_s, "nm": nm, "nd": draw(st.sampled_from([1, 2, 3, 2, 3])), "sds": sds, "sub": [sds[p] for p in pos],
-            "intfs": draw(_ordered_subset(ni))}
+            "intfs": draw(_ordered_subset(ni)),
+            # the order in which the eight mortar projections are requested from ONE MortarProjections object (results
+            # are cached per object), followed by a few repeated requests
+            "morder": list(draw(st.permutations(list(range(8))))) + draw(st.lists(st.integers(0, 7), max_size=4))}
     # about a third of the cases: a history of requests on ONE SubdomainProjections object
     if k >= 2 and draw(st.sampled_from([True, False, False, True, False])):
         spec["hist"] = draw(_history(k))
@@ -181,6 +185,15 @@ def _mdg_of(spec):
             for intf in mdg.interfaces(dim=1):
                 new = {side: pp.refinement.refine_grid_1d(g, 2) for side, g in intf.side_grids.items()}
                 mdg.replace_subdomains_and_interfaces(interface_map={intf: new})
+        elif spec["nm"] == 3:
+            # mortar grids with one node more per side than the neighbouring grids, equally spaced: not nested in
+            # either neighbour, so that integrating and averaging projections differ on the primary side too
+            # (remesh_1d takes one unbroken line with two end nodes: interfaces of fractures cut by another one keep their grids)
+            for intf in mdg.interfaces(dim=1):
+                if any(len(g.get_all_boundary_nodes()) != 2 for g in intf.side_grids.values()):
+                    continue
+                new = {side: pp.refinement.remesh_1d(g, num_nodes=g.num_nodes + 1) for side, g in intf.side_grids.items()}
+                intf.update_mortar(new, tol=1e-8)
         else:
             for g in mdg.subdomains(dim=1):
                 mdg.replace_subdomains_and_interfaces({g: pp.refinement.refine_grid_1d(g, 2)})
@@ -351,7 +364,12 @@ def check(spec):
     coff, _ = _offsets(nc)
     mp = pp.ad.MortarProjections(mdg, L, I, nd)
     missing = False
-    for name, to_mortar, primary in MORTAR_METHODS:
+    morder = spec.get("morder") or list(range(8))
+    if morder[:8] != list(range(8)):
+        labels.append("mortar-request-order-permuted")
+    if not getattr(mp, "_is_conforming_primary", True):
+        labels.append("mortar-nonconforming-primary")
+    for name, to_mortar, primary in [MORTAR_METHODS[k] for k in morder]:
         n_sd = (totf if primary else totc) * nd
         ref = np.zeros((totm * nd, n_sd)) if to_mortar else np.zeros((n_sd, totm * nd))
         for j, intf in enumerate(I):
